@@ -34,6 +34,9 @@ REGRESSION_TEXTS = [
      "(assignment left: (_) @l right: (#null)? @r) @a {\n  let @a.sm = [\"\", (join [ \"a\" for c4 in [(node)] ] \"/\")]\n  node n5\n  scan (node-type @l) {\n"
      "    \"b$\" {\n      node g7\n      attr (g7) g0 = $0\n      let @a.sv = #false\n      edge n5 -> n5\n      let v6 = @r\n    }\n  }\n}\n", 10),
     ("(assignment left: (_) @l right: (#null)? @r) @a {\n  let u1 = @l\n  let u2 = @r\n  let u3 = @a\n}\n", 2),
+    # known finding F18 (found by the thorough tier, text t19959): lazy execution allocates without bound inside tree-sitter's query cursor
+    ("(assignment left: (identifier) @l right: (#null)+ @r) {\n  let v1 = @r\n  let v2 = @l\n}\n"
+     "(assignment left: (identifier) @l right: (_)+ @r) {\n  let u4 = @l\n  let u5 = @r\n}\n", 19),
     ("(module) @_m {\n  print $1\n}\n", 2),
     ("(module) @_m {\n  scan \"ab\" {\n    \"(a)\" {\n      print $2\n    }\n  }\n}\n", 2),
 ]
@@ -271,6 +274,9 @@ def features(text):
         if re.search(r"[?*+]\s*[?*+]|[\s(][?*+]", pat):
             f.append("quantifier-after-capture")
             break
+    # a predicate where a pattern is expected (tree-sitter accepts it), repeated
+    if re.search(r"\(#[^()\n]*\)\s*[+*]", text):
+        f.append("repeated-predicate-pattern")
     return ",".join(f)
 
 
